@@ -248,6 +248,12 @@ class C07(Spec):
         tooldir = os.path.join(scratch.dir, "hookbin")
         os.makedirs(tooldir, exist_ok=True)
         shutil.copy(os.path.join(scratch.dir, "verifdump.bin"), os.path.join(tooldir, "vdump"))
+        if os.environ.get("VERIF_HOOK_WRAP"):
+            # development aid: log the exit status of every hook run
+            shutil.copy(os.path.join(scratch.dir, "verifdump.bin"), os.path.join(tooldir, "vdump.real"))
+            with open(os.path.join(tooldir, "vdump"), "w") as f:
+                f.write("#!/bin/sh\n%s/vdump.real \"$@\"\nrc=$?\necho \"$$ rc=$rc file=$VERIF_DUMP_FILE args=$*\" >> %s\nexit $rc\n" % (tooldir, os.environ["VERIF_HOOK_WRAP"]))
+            os.chmod(os.path.join(tooldir, "vdump"), 0o755)
         env = {"PATH": tooldir + ":" + os.environ.get("PATH", ""), "VERIF_DUMP_FILE": os.path.join(scratch.work, "hook.dump"), "VERIF_CASE_TIMEOUT": "60"}
         cfg = "[media]\nhook = [\"vdump\", \"%url\"]\n"
         cases = []
@@ -302,7 +308,7 @@ class C07(Spec):
                 keys = keys[:i] + [256] + keys[i:i + rng.randint(1, 6)] + [257] + keys[i + 6:]
             cases.append(ui_case(w, keys, preload=rng.choice((0, 1, 2, 2, 3)), width=rng.choice((60, 30, 10)), height=rng.choice((20, 10, 3, 2)), feeds=feeds))
         b = Batch("c07", cases, config=cfg, env=env, timeout=1200, correspondence="ui.State.Update == Ui.update / run_task")
-        b.parallel = False
+        b.parallel = True          # synthetic items never reach the media hook, so shards do not share the recorder's file
         # the keys that act on pub's concrete types (c r a o p b), on real posts, actors and activities
         pcases = []
         for _ in range(150 if tier == "quick" else 5000):
